@@ -20,6 +20,7 @@ import json
 from lib import vlib
 
 SPEC = "H2"
+GEN_WORKERS = 4
 
 C33_WHY = {"Replenished", "HandlerData"}
 C34_WHY = {"DataFits", "DataOrder", "SendAfterEnd", "DataBeforeHeaders"}
@@ -63,8 +64,9 @@ def harness_cfg(d):
 
 
 def gen(ctx, defines, num, depth, label):
-    r = ctx.tlc(SPEC, "GenConn", "Gen_Conn.cfg", mode="sim", sim_num=num, sim_depth=depth,
-                defines=defines, timeout=1200, count=False)
+    # -simulate num is per worker
+    r = ctx.tlc(SPEC, "GenConn", "Gen_Conn.cfg", mode="sim", sim_num=max(1, num // GEN_WORKERS), sim_depth=depth,
+                workers=GEN_WORKERS, defines=defines, timeout=1200, count=False)
     if not r.ok:
         raise vlib.MachineryError("GenConn (%s) failed: %s %s" % (label, r.error or r.violation, r.out[-800:]))
     seen, out = set(), []
@@ -220,9 +222,10 @@ def run_cases(ctx, cases, decisive, label):
     return nbad
 
 
-BASE = {"SW0": 39321, "OCW0": 65536, "OSW0": 32768, "MAXS": 2, "SIDS": "{1,3}", "TRAILERS": '{"trailers"}',
+BASE = {"DATALENS": "{1}", "SW0": 39321, "OCW0": 65536, "OSW0": 32768, "MAXS": 2, "SIDS": "{1,3}", "TRAILERS": '{"trailers"}',
         "PADS": "{0}", "WUINCS": "{1}", "IWS": "Absent", "MFS": "Absent", "CLS": "ClNone",
-        "READLENS": "{1}", "WRITELENS": "{16384}", "MINSTEPS": 3, "MAXDATA": 5, "MAXHDRS": 3}
+        "READLENS": "{1}", "WRITELENS": "{16384}", "MINSTEPS": 3, "MAXDATA": 5, "MAXHDRS": 3,
+        "HEAVY": "{}", "FIRSTH": "TRUE"}
 
 
 def defs(**kw):
@@ -236,14 +239,15 @@ U = 13107   # 65535 / 5: five of these fill the connection receive window exactl
 
 def check_c33(ctx):
     q = ctx.tier == "quick"
-    mc = {"MAXSID": 3, "SIDS": "{1,3}", "STEPS": 5 if q else 6}
+    mc = {"MAXSID": 3, "SIDS": "{1,3}", "STEPS": 4 if q else 6}
     ctx.cov["constants"]["MC_Conn33"] = mc
     ctx.tlc_must_pass(SPEC, "ConnMC", "MC_Conn33.cfg", defines=mc, timeout=2400, coverage=not q)
     cases = []
-    for sw, num in ((3 * U, 300 if q else 3000), (65535, 100 if q else 1000)):
+    for sw, num in ((3 * U, 200 if q else 3000), (65535, 80 if q else 1000)):
         g = defs(SW0=sw, KINDS='{"HEADERS","DATA","RST"}', REQS='{"post","get"}',
                  DATALENS="{0,1,%d,%d,%d,%d}" % (U, 2 * U, 3 * U, 3 * U + 1), PADS="{0,1,256}", CLS="ClSome",
-                 HOPS='{"read","ret","write"}', READLENS="{1,%d,65535}" % U, STEPS=9, MINSTEPS=4)
+                 HOPS='{"read","ret","write"}', READLENS="{1,%d,65535}" % U, STEPS=9, MINSTEPS=6,
+                 HEAVY='{"DATA","h-read"}')
         ctx.cov["constants"]["Gen_C33_sw%d" % sw] = g
         cases += gen(ctx, g, num, 150, "C33")
     ctx.cov["rule"] = ("cases = TLC-simulated behaviours of GenConn (HEADERS/DATA with padding/RST_STREAM, handler "
@@ -255,16 +259,17 @@ def check_c33(ctx):
 
 def check_c34(ctx):
     q = ctx.tier == "quick"
-    mc = {"MAXSID": 3, "SIDS": "{1,3}", "STEPS": 5 if q else 6}
+    mc = {"MAXSID": 3, "SIDS": "{1,3}", "STEPS": 4 if q else 6}
     ctx.cov["constants"]["MC_Conn34"] = mc
     ctx.tlc_must_pass(SPEC, "ConnMC", "MC_Conn34.cfg", defines=mc, timeout=2400, coverage=not q)
     cases = []
-    for osw, num in ((32768, 250 if q else 2500), (0, 100 if q else 1000), (65535, 50 if q else 500)):
+    for osw, num in ((32768, 160 if q else 2500), (0, 60 if q else 1000), (65535, 40 if q else 500)):
         g = defs(OSW0=osw, KINDS='{"HEADERS","WU","SETTINGS","RST"}', REQS='{"get"}',
                  WUINCS="{1,16384,32768}", IWS="IwsFlow", MFS="MfsFlow",
-                 HOPS='{"write","hdr","ret"}', WRITELENS="{1,16384,32768,49152,65536}", STEPS=10, MINSTEPS=4)
+                 HOPS='{"write","hdr","ret"}', WRITELENS="{1,16384,32768,49152,65536}", STEPS=10, MINSTEPS=6,
+                 HEAVY='{"h-write","WU"}')
         ctx.cov["constants"]["Gen_C34_osw%d" % osw] = g
-        cases += gen(ctx, g, num, 200, "C34")
+        cases += gen(ctx, g, num, 220, "C34")
     ctx.cov["rule"] = ("cases = TLC-simulated behaviours of GenConn (two concurrent responses, WINDOW_UPDATE on stream "
                        "and connection, SETTINGS changing INITIAL_WINDOW_SIZE / MAX_FRAME_SIZE, RST_STREAM) replayed on a "
                        "real server; every DATA/HEADERS frame the client received is validated by TLC against the windows "
@@ -286,9 +291,9 @@ def check_c35(ctx):
     cases = []
     g = defs(MAXS=2, SIDS="{1,2,3,5}", KINDS=ALLKINDS, REQS=ALLREQS, TRAILERS='{"trailers","trailerspseudo","trailersupper"}',
              DATALENS="{0,1,%d}" % U, PADS="{0,1}", WUINCS="{0,1,2147483647}", IWS="IwsAll", MFS="MfsAll",
-             HOPS='{"read","write","ret"}', STEPS=7, MINSTEPS=3, MAXHDRS=5)
+             HOPS='{"read","write","ret"}', STEPS=7, MINSTEPS=3, MAXHDRS=5, HEAVY='{"HEADERS"}', FIRSTH="FALSE")
     ctx.cov["constants"]["Gen_C35"] = g
-    cases += gen(ctx, g, 500 if q else 6000, 150, "C35")
+    cases += gen(ctx, g, 400 if q else 6000, 150, "C35")
     ctx.cov["rule"] = ("cases = TLC-simulated sequences of client frames of every kind (HEADERS incl. malformed / "
                        "connection-specific / trailers / without END_HEADERS, DATA, RST_STREAM, WINDOW_UPDATE incl. 0 and "
                        "overflow, SETTINGS incl. invalid, PING, PRIORITY, CONTINUATION, PUSH_PROMISE, unknown) interleaved "
@@ -398,7 +403,85 @@ def check_c38(ctx):
     run_resp(ctx, cases, "C38")
 
 
-PROPS = {"C33": check_c33, "C34": check_c34, "C35": check_c35, "C38": check_c38}
+# ---------------------------------------------------------------------------- C37
+FLOOD_CAP = 256                       # octets the server->client direction holds while the client does not read
+FLOOD_ESCAPE = (FLOOD_CAP + 4096) // 9 + 16   # frames that can leave the queue before the writer blocks
+
+
+def run_flood(ctx, cases, label):
+    for i, c in enumerate(cases):
+        c["id"] = i + 1
+    send = [{"id": c["id"], "cap": FLOOD_CAP, "bursts": [{"k": b["k"], "n": b["n"]} for b in c["bursts"]]} for c in cases]
+    res = ctx.harness("h2conn", ["flood"], cases=send, timeout=1500)
+    crash = [r for r in res if "_harness_exit" in r]
+    if crash or not [r for r in res if r.get("summary")]:
+        raise vlib.MachineryError("h2conn flood harness died: %s" % (crash or res[-1:]))
+    obs = {r["id"]: r["obs"] for r in res if "obs" in r}
+    n = early = 0
+    for c in cases:
+        o = obs.get(c["id"])
+        if o is None or o.get("hang"):
+            raise vlib.MachineryError("flood case did not complete: %s %s" % (c["bursts"], o))
+        kinds = "+".join(sorted({b["k"] for b in c["bursts"]}))
+        ctx.count([(b["k"], b["n"]) for b in c["bursts"]])
+        bad = []
+        if o.get("panic"):
+            bad.append(("panic", o["panic"]))
+        for b, smp in zip(c["bursts"], o["samples"]):
+            if o["limit"] != b["bound"]:
+                raise vlib.MachineryError("server limit %s differs from the spec constant %s" % (o["limit"], b["bound"]))
+            if not smp["closed"] and smp["queued"] > b["bound"]:
+                bad.append(("over-limit", "queued %d > %d after %s" % (smp["queued"], b["bound"], b)))
+            if b["mustClose"] and not smp["closed"]:
+                bad.append(("not-closed", "connection still up after %s (queued %d)" % (b, smp["queued"])))
+            if smp["closed"] and not b["mayClose"]:
+                early += 1
+        if o["received"] > o["limit"] + FLOOD_ESCAPE:
+            bad.append(("delivered", "%d control frames delivered after resuming" % o["received"]))
+        for what, det in bad[:1]:
+            n += 1
+            ctx.report("%s/%s" % (what, kinds), "bursts %s: %s; observed %s" % (
+                [(b["k"], b["n"]) for b in c["bursts"]], det, json.dumps(o)[:600]),
+                case={"bursts": c["bursts"]}, harness="h2conn", cmd="flood")
+    if early:
+        ctx.drift("action=flood %d behaviours: connection closed although at most Limit control frames were elicited" % early)
+    ctx.traces(len(cases))
+    for c in cases[:2]:
+        ctx.sample({"bursts": [(b["k"], b["n"]) for b in c["bursts"]], "observed": obs[c["id"]]})
+    return n
+
+
+def check_c37(ctx):
+    q = ctx.tier == "quick"
+    mc = {"STEPS": 4 if q else 5}
+    ctx.cov["constants"]["MC_ConnFlood"] = dict(mc, Limit=3, Escape=2, Bursts="{1,2,4}")
+    ctx.tlc_must_pass(SPEC, "ConnFlood", "MC_ConnFlood.cfg", defines=mc, timeout=1500, want_cases=False)
+    g = {"ESCAPE": FLOOD_ESCAPE, "BURSTS": "{1,2,4000,5000,6000,9999,10001,%d}" % (10001 + FLOOD_ESCAPE),
+         "KINDS": '{"PING","WU0","DATAC","SETTINGS"}', "STEPS": 3}
+    ctx.cov["constants"]["Gen_ConnFlood"] = dict(g, Limit=10000)
+    r = ctx.tlc(SPEC, "ConnFlood", "Gen_ConnFlood.cfg", mode="sim", sim_num=60 if q else 400, sim_depth=6,
+                defines=g, timeout=900, count=False)
+    if not r.ok:
+        raise vlib.MachineryError("ConnFlood generator failed: %s %s" % (r.error or r.violation, r.out[-600:]))
+    seen, cases = set(), []
+    for c in r.cases:
+        if "bursts" not in c:
+            continue
+        k = json.dumps([(b["k"], b["n"]) for b in c["bursts"]])
+        if k not in seen:
+            seen.add(k)
+            cases.append(c)
+    if not cases:
+        raise vlib.MachineryError("ConnFlood generator printed no behaviours")
+    ctx.cov["rule"] = ("cases = TLC-simulated flood patterns of ConnFlood (bursts of PING / zero WINDOW_UPDATE / DATA on a "
+                       "closed stream / SETTINGS around the real limit of 10000) sent to a real server whose client has "
+                       "stopped reading (bounded in-memory transport); after every burst the connection state and "
+                       "serverConn.queuedControlFrames are sampled on the serve loop and compared with the TLC-printed "
+                       "expectation (bound, mustClose); after resuming the number of delivered control frames is bounded.")
+    run_flood(ctx, cases, "C37")
+
+
+PROPS = {"C33": check_c33, "C34": check_c34, "C35": check_c35, "C37": check_c37, "C38": check_c38}
 
 
 def replay(ctx, pid, rep):
@@ -407,6 +490,8 @@ def replay(ctx, pid, rep):
         run_cases(ctx, [case], {"C33", "C34", "C35"} if pid in ("C33", "C34", "C35") else {pid}, "replay")
     elif rep.get("cmd") == "resp":
         run_resp(ctx, [case], "replay")
+    elif rep.get("cmd") == "flood":
+        run_flood(ctx, [case], "replay")
     rc = ctx.finish()
     print("replay: %s" % ("violation reproduced" if rc == 1 else "no violation on the current tree"))
     return rc
